@@ -26,7 +26,9 @@ template <typename TScalar>
 py::object pfaffian_np(
     py::array_t<TScalar, py::array::c_style> matrix)
 {
-    Matrix<TScalar> native_matrix = numpy_to_matrix(matrix);
+    // NOTE: pfaffian_cpp pivots and eliminates in place, and numpy_to_matrix only
+    // wraps the caller's buffer, so the calculation has to run on a copy.
+    Matrix<TScalar> native_matrix = numpy_to_matrix(matrix).copy();
 
     TScalar result = pfaffian_cpp(native_matrix);
 
